@@ -44,7 +44,8 @@ def values_for(name):
     if name == "TZID":
         return [("id", lambda: "Custom/Zone-1")]
     if name == "CATEGORIES":
-        return [("list", lambda: ["a", "b c"]), ("single", lambda: "single"), ("semi", lambda: ["x;y", "z"])]
+        return [("list", lambda: ["a", "b c"]), ("single", lambda: "single"), ("semi", lambda: ["x;y", "z"]),
+                ("blanks", lambda: ["Projects", " - sub project", "\tTabbed", " ", "trailing "])]
     if typ == "TEXT":
         return [("plain", lambda: "plain"), ("special", lambda: "a;b,c\nd"), ("empty", lambda: ""), ("feff", lambda: "\ufeffx\u00a0")]
     if typ == "URI":
